@@ -87,7 +87,7 @@ def main():
             "engine": "harness",
             "level_claimed": {"category": c["cat"], "text": c["text"], "design_ref": c["ref"]},
             "level_note": c["note"],
-            "technique": c["tech"],
+            "technique": c["tech"] + ("; thorough tier adds a pass of the quick workload under the Go race detector (halt on first report)" if pid in ("C18", "C20") else ""),
         })
     na = []
     for pid in props:
